@@ -98,13 +98,21 @@ func TestC20(t *testing.T) {
 	h.Assume("os.WriteFile = open(O_CREATE|O_TRUNC), one write, close: a death between its open and its write is emulated by the empty file")
 	h.Assume("intermediate configuration states are loaded inside the test process after resetting all saved variables to fresh-process values (verified on every use); session boundaries and every disagreement use a fresh process")
 
+	// shard 0 of the thorough tier also does the enumerations and takes half the generated cases
+	n := func(quick, thorough int) int {
+		v := h.N(quick, thorough)
+		if h.Thorough() && h.C.Shard == 0 && v > 1 {
+			v /= 2
+		}
+		return v
+	}
 	h.RunProp(t, clearGrid, 0)
 	h.RunProp(t, limitGrid, 0)
-	h.RunProp(t, restart, h.N(600, 2500))
-	h.RunProp(t, restartCtl, h.N(150, 700))
-	h.RunProp(t, crash, h.N(50, 220))
-	h.RunProp(t, crashExit, h.N(15, 40))
-	h.RunProp(t, settings, h.N(16, 60))
+	h.RunProp(t, restart, n(600, 2000))
+	h.RunProp(t, restartCtl, n(150, 600))
+	h.RunProp(t, crash, n(50, 180))
+	h.RunProp(t, crashExit, n(15, 30))
+	h.RunProp(t, settings, n(16, 50))
 
 	if h.C.Shard != 0 {
 		return // the enumerations are done by shard 0 only
